@@ -558,11 +558,16 @@ func parseComment(l *syntax.Lexer) (bool, syntax.Token, error) {
 		// parse ：after 「注」
 		if l.GetCurrentChar() == Colon {
 			isComment = true
-			switch l.Next() {
+			// only consume the char after the colon when it opens a multi-line comment;
+			// otherwise it is the first char of the comment text (or the line break / EOF
+			// that ends an empty comment) and will be read by the loop below
+			switch l.Peek() {
 			case LeftDoubleQuoteI:
+				l.Next()
 				multiCommentType = commentTypeQuoteI
 				quoteCount = 1
 			case LeftDoubleQuoteII:
+				l.Next()
 				multiCommentType = commentTypeQuoteII
 				quoteCount = 1
 			default:
